@@ -332,7 +332,9 @@ class Run:
         self.prog = prog
         self.status0 = status0
         self.loop = loop if loop is not None else detloop.DetLoop()
-        asyncio.set_event_loop(self.loop)
+        # for the runs that start without a status message the process's loop is NOT the thread's current one
+        self.foreign_loop = status0 is None
+        detloop.use_loop(self.loop, foreign=self.foreign_loop)
         self.loop_errs = []
         def on_loop_error(_loop, context):
             # an unretrieved exception on an abandoned future (reported by the garbage collector) is not an exception
@@ -364,6 +366,12 @@ class Run:
             if cur is not None and getattr(cur, 'value', None) in ('finished', 'excepted', 'killed') and st is not None:
                 self.left_terminal.append((cur.value, st.LABEL.value))
         p.add_state_event_callback(StateEventHook.ENTERING_STATE, entering)
+        # a waiter on the process future, registered the ordinary way: it is told (on the loop of the process) when the future ends
+        self.fut_done = []
+        try:
+            p.future().add_done_callback(lambda f: self.fut_done.append(1))
+        except Exception:  # noqa
+            pass
         self.lis = Listener(self, plan)
         p.add_process_listener(self.lis)
         p.add_process_listener(self.lis)          # subscribing twice is subscribing once (exactly one notification per event)
@@ -378,7 +386,7 @@ class Run:
             p.add_state_event_callback(StateEventHook.EXITING_STATE, lambda sm, h, st: self.lis.hook_hit('exi', st))
             p.add_state_event_callback(StateEventHook.ENTERING_STATE, lambda sm, h, st: self.lis.hook_hit('ent', st))
         self.cleanups = []
-        self.cleanups_other = {'raising': 0, 'last': 0}
+        self.cleanups_other = {'raising': 0, 'last': 0, 'late': 0}
         p.add_cleanup(lambda: self.cleanups.append(1))
 
         def raising_cleanup():
@@ -387,6 +395,14 @@ class Run:
 
         def last_cleanup():
             self.cleanups_other['last'] += 1
+            if self.cleanups_other['last'] == 1:
+                # a cleanup that registers a further one while the process is closing (accepted: the process is not closed yet)
+                def late_cleanup():
+                    self.cleanups_other['late'] += 1
+                try:
+                    p.add_cleanup(late_cleanup)
+                except Exception:  # noqa
+                    self.cleanups_other['late'] = -1
         p.add_cleanup(raising_cleanup)      # a failing cleanup must not keep the others from running
         p.add_cleanup(last_cleanup)
         self.task = self.loop.create_task(p.step_until_terminated())
